@@ -21,6 +21,7 @@ const (
 	modeOff   uint32 = iota // Yield returns at once (shipped behaviour)
 	modeCount               // sequential runs: count steps, enforce a budget
 	modeSched               // the seeded scheduler owns every goroutine
+	modeDrain               // after a scheduled run: everything runs freely, steps counted against the limit
 )
 
 var (
@@ -51,8 +52,14 @@ func Yield(site uint32) {
 		if s := cur.Load(); s != nil {
 			s.yield(site)
 		}
+	case modeDrain:
+		if drainSteps.Add(1) > drainLimit.Load() {
+			panic(ErrBudget{drainSteps.Load()})
+		}
 	}
 }
+
+var drainSteps, drainLimit atomic.Uint64
 
 // CountSteps runs f on the calling goroutine with step counting armed and
 // returns the number of woven yields executed; it panics with ErrBudget past
@@ -80,6 +87,7 @@ type Task struct {
 	syncHits  uint32
 	parks     int
 	syncParks int
+	steps     uint64
 	done      atomic.Bool
 	rng       *SplitMix64 // per-task stream (map permutations)
 	stderr    *strings.Builder
@@ -122,6 +130,10 @@ type Config struct {
 	HandoffWaiter int
 	HandoffHolder int
 	HandoffAfter  int
+	// StepLimit > 0: a task that executes more woven yields than this panics
+	// with ErrBudget (code that terminates alone within a budget and does
+	// not terminate in company must not hang the simulator)
+	StepLimit uint64
 	// Procs is what woven runtime.GOMAXPROCS(0)/runtime.NumCPU() calls return
 	// during this run (0: the real value).
 	Procs int
@@ -240,6 +252,11 @@ func (s *Sim) yield(site uint32) {
 		s.register(t)
 		t.park(site)
 		return
+	}
+	if s.cfg.StepLimit > 0 {
+		if t.steps++; t.steps > s.cfg.StepLimit {
+			panic(ErrBudget{t.steps})
+		}
 	}
 	if int(site) < len(s.active) && !s.active[site] {
 		return
@@ -411,7 +428,13 @@ func Run(cfg Config, clients []Client) Result {
 	}
 	// Disarm and drain: whatever is still parked runs freely to completion so
 	// that no goroutine outlives the run.
-	mode.Store(modeOff)
+	if s.cfg.StepLimit > 0 {
+		drainSteps.Store(0)
+		drainLimit.Store(s.cfg.StepLimit)
+		mode.Store(modeDrain)
+	} else {
+		mode.Store(modeOff)
+	}
 	for {
 		released := false
 		for _, t := range *s.tasks.Load() {
@@ -428,6 +451,7 @@ func Run(cfg Config, clients []Client) Result {
 	if !s.res.Deadlock {
 		wg.Wait()
 	}
+	mode.Store(modeOff)
 	cur.Store(nil)
 	s.res.LogHash = uint64(h)
 	s.res.Tasks = len(*s.tasks.Load())
